@@ -274,6 +274,21 @@ pub fn datagrams(tier: Tier, seed: u64) -> Vec<(&'static str, Vec<u8>)> {
         // classic request with count word 0 (empty message) and trailing bytes
         out.push(("field-mutant", vec![0u8; 1024]));
     }
+    // framed requests naming every VER list of length <= 3 over {draft-13, classic 0, an unknown number}
+    {
+        let vs: [[u8; 4]; 3] = [VER_IETF13, [0, 0, 0, 0], [1, 0, 0, 0x80]];
+        for len in 0..=3usize {
+            for mut idx in 0..3usize.pow(len as u32) {
+                let mut v = vec![];
+                for _ in 0..len {
+                    v.extend_from_slice(&vs[idx % 3]);
+                    idx /= 3;
+                }
+                out.push(("ietf-version-list", ietf_request(&v, None, &nonce(0x77 + out.len() as u64, 32), 1024)));
+                out.push(("ietf-version-list", ietf_request(&v, None, &nonce(0x78 + out.len() as u64, 32), 1500)));
+            }
+        }
+    }
     out
 }
 
@@ -389,7 +404,7 @@ pub fn run(ctx: &Ctx) -> Result<(), String> {
     ctx.cov("outcome_classes", json!(cls));
     ctx.cov("exhaustive", json!(true));
     ctx.cov("bound", json!({"lengths": ctx.tier.pick("0..=2048 every length, then every 257th, top 17", "every length 0..=65507"), "nonce_lengths":"every multiple of 4 in 0..=1484", "full_batches": full_bs.len()}));
-    ctx.cov("rule", json!("each datagram is one history on a real in-process Server: send from a fresh socket, process_events to quiescence, collect, then a valid sentinel request (alternating protocol) must be answered with an authentic reply. Datagram space: random bytes / valid classic and IETF requests re-padded, truncated, extended at every length of the tier's length set; every frame-length deviation; nonces of every aligned length 0..=1484 in minimal and 1500-byte requests for both protocols; field mutants; full batches (k = batch_size) of canonical and 640-byte-nonce requests. Oracle: 3-valued classifier from the statement (must-answer canonical, may for other nonce lengths / draft-13 beyond the 4th VER entry, must-not otherwise); reply => authentic for that request; always len(reply) <= len(request). states = distinct (family, class, #replies) outcome classes; non-trivial = datagram of length >= 1024 or one that is not must-not."));
+    ctx.cov("rule", json!("each datagram is one history on a real in-process Server: send from a fresh socket, process_events to quiescence, collect, then a valid sentinel request (alternating protocol) must be answered with an authentic reply. Datagram space: random bytes / valid classic and IETF requests re-padded, truncated, extended at every length of the tier's length set; every frame-length deviation; nonces of every aligned length 0..=1484 in minimal and 1500-byte requests for both protocols; field mutants; framed requests with every VER list of length <= 3 over {draft-13, classic 0, unknown}; full batches (k = batch_size) of canonical and 640-byte-nonce requests. Oracle: 3-valued classifier from the statement (must-answer canonical, may for other nonce lengths / draft-13 beyond the 4th VER entry, must-not otherwise); reply => authentic for that request; always len(reply) <= len(request). states = distinct (family, class, #replies) outcome classes; non-trivial = datagram of length >= 1024 or one that is not must-not."));
     ctx.sample(json!({"family":"classic-nonce-length","nonce_len":1008,"request_len":1024}));
     ctx.sample(json!({"family":"ietf-frame-length","frame_len_field":"real+4","request_len":1024}));
     ctx.sample(json!({"family":"random","len":1500}));
